@@ -1,4 +1,4 @@
-"""C33 — Redis PUB/SUB payload framing round-trips; parsing is (not) total.
+"""C33 — Redis PUB/SUB payload framing round-trips; parsing is total.
 
 Proof: lean/CentrifugeVerif/Props/C33.lean over Model/RedisPush.lean (+ Gen/RedisPushFmt.lean, regenerated
 on every run from the Lua scripts by lua_fmt.py).
@@ -7,7 +7,10 @@ Tie: T1 (translator) + T2: differential run of extractPushData / parseDeltaPush 
 round-trip stream whose frames are rendered from the *extracted* Lua expressions around payloads marshalled
 by the real protobuf code.
 Oracle: (a) no op may panic, (b) the decoded tuple equals what was framed.
-Known findings (re-derived every run): slice-bounds panics on four narrow input shapes; list script + delta
+Findings: C33-1…4 (slice-bounds panics on four narrow input shapes) are FIXED in /repo by e8dc9ebe — their replay
+ops stay in corpus.ops, a regression is a VIOLATION again (signature class "regression-…"); C33-6 (known, re-derived
+every run): the new guard `len(input) < prevPayloadLength+1` overflows for a declared length of MaxInt64 and the
+slice still panics; C33-5 (known, re-derived every run): list script + delta
 hands the framed list entry over as previous payload.
 """
 import json
@@ -70,6 +73,24 @@ def panic_class(data):
     if content[0:1] != b"d":
         return None
     return delta_panic_class(content)
+
+
+def current_panic_class(data):
+    """The one shape on which the code after e8dc9ebe still panics: declared prev-payload length == MaxInt64
+    (`prevPayloadLength+1` wraps around in the guard)."""
+    if not data.startswith(b"__d1:"):
+        return None
+    rest = data[5:]
+    fields = []
+    for _ in range(3):
+        i = rest.find(b":")
+        if i < 0:
+            return None
+        fields.append(rest[:i])
+        rest = rest[i + 1:]
+    if go_parse_uint(fields[0]) is None:
+        return None
+    return "prevLenMaxInt" if go_atoi(fields[2]) == I63 - 1 else None
 
 
 def delta_panic_class(content):
@@ -211,6 +232,15 @@ def gen_malformed(rng):
 
 
 # ------------------------------------------------------------------ reporting helpers
+def sig_class(full):
+    """signature class of a panicking input: the known overflow shape, a regression of a fixed shape, or unclassified"""
+    c = current_panic_class(full)
+    if c:
+        return c
+    c = panic_class(full)
+    return ("regression-" + c) if c else "unclassified"
+
+
 def load_findings():
     try:
         return json.load(open(os.path.join(HERE, "findings.json"))).get("findings", [])
@@ -277,6 +307,7 @@ def run(ctx):
         "necessity is proved by `decide`d examples",
         "a marshalled protobuf message never starts with '__' (0x5f = field 11, wire type 7)",
         "Lua `..`, `#` and redis.call(lindex/lpush) semantics are taken from the translated script text (no Lua VM in the sandbox)",
+        "panic_class / `cls` / `pre` ops concern the code before commit e8dc9ebe (history of findings C33-1…4)",
     ]
     try:
         fm = regen(ctx)
@@ -305,17 +336,17 @@ def run(ctx):
             if a == "PANIC":
                 d = unhx(op.split()[1])
                 report(ctx, "property", "decoding this PUB/SUB payload panics (slice bounds out of range)",
-                       {"kind": "panic", "class": panic_class(d) or "unclassified"}, {"ops": [op], "impl": [a]})
+                       {"kind": "panic", "class": sig_class(d if op.split()[0] != "pdp" else b"__" + d)}, {"ops": [op], "impl": [a]})
         return
 
     # ---------------------------------------------------------------- known findings, re-derived
     reproduced = {}
     for f in load_findings():
         ops = f.get("replay", {}).get("ops", [])
-        if f.get("match", {}).get("kind") == "panic":
+        if f.get("status") == "known" and f.get("match", {}).get("kind") == "panic":
             out = go(ops)
             ok = bool(out) and all(o == "PANIC" for o in out) and \
-                all(panic_class(unhx(op.split()[1])) == f["match"]["class"] for op in ops if op.split()[0] == "ext")
+                all(sig_class(unhx(op.split()[1])) == f["match"]["class"] for op in ops if op.split()[0] == "ext")
             reproduced[f["id"]] = ok
             if ok:
                 report(ctx, "property", f["what"], {"kind": "panic", "class": f["match"]["class"]},
@@ -381,13 +412,13 @@ def run(ctx):
     mal = []
     for _ in range(ctx.scale(2500, 120000)):
         d = gen_malformed(ctx.rng)
-        mal += ["ext " + hx(d), "cls " + hx(d)]
+        mal += ["ext " + hx(d), "cls " + hx(d), "ovf " + hx(d)]
         if ctx.rng.random() < 0.5:
             mal.append("handle " + hx(d))
         if d.startswith(b"__d") and ctx.rng.random() < 0.7:
             mal.append("pdp " + hx(d[2:]))
         if ctx.rng.random() < 0.2:
-            mal.append("fixed " + hx(d))
+            mal.append("pre " + hx(d))
     pre_ops = corpus + mal
     all_ops = pre_ops + ops
     all_expect = [None] * len(pre_ops) + expect
@@ -406,14 +437,14 @@ def run(ctx):
         b = model[i] if i < len(model) else "<missing>"
         kind = w[0]
         ctx.count("op:" + kind)
-        data = unhx(w[1]) if kind in ("ext", "pdp", "handle", "cls", "fixed") else b""
+        data = unhx(w[1]) if kind in ("ext", "pdp", "handle", "cls", "pre", "ovf") else b""
         if kind in ("ext", "pdp", "handle"):
             ctx.record(op, nontrivial=data.startswith(b"__") or kind == "pdp")
             ctx.count(f"impl:{kind}:" + (a.split()[0] if a else "?"))
         # ---- oracle (a): never panic
         if a == "PANIC" or a == "<missing>":
             full = data if kind != "pdp" else b"__" + data
-            cls = panic_class(full) or "unclassified"
+            cls = sig_class(full)
             ctx.count("panic:" + cls)
             nviol += 1
             sig = {"kind": "panic", "class": cls}
@@ -443,16 +474,21 @@ def run(ctx):
         if kind == "handle":
             a_cmp = "PANIC" if a == "PANIC" else ("<missing>" if a == "<missing>" else "nopanic")
         elif kind == "cls":
-            a_cmp = "class=" + (panic_class(data) or "none")       # Python classifier vs Lean classifier
+            a_cmp = "class=" + (panic_class(data) or "none")       # Python classifier vs Lean classifier (pre-fix shapes)
+        elif kind == "ovf":
+            a_cmp = "class=" + (current_panic_class(data) or "none")
         elif kind == "build":
             a_cmp = ex[2]
-        elif kind == "fixed":
-            # fixed model: equals the implementation wherever the implementation does not panic, fails cleanly elsewhere
+        elif kind == "pre":
+            # model of the code before e8dc9ebe: wherever it did not panic it equals today's implementation (outside the
+            # overflow shape); where it panicked (exactly the classified shapes) today's implementation reports ok=0
             ea = ext_result.get(w[1])
             if ea is None:
                 a_cmp = b
             elif ea == "PANIC":
-                a_cmp = b if b.startswith("ok=0") else "fixed-model-should-return-ok=0"
+                a_cmp = b if current_panic_class(data) else "impl-panic-unexplained"
+            elif b == "PANIC":
+                a_cmp = "PANIC" if (panic_class(data) and ea.startswith("ok=0")) else "pre-fix-panic-not-explained"
             else:
                 a_cmp = ea
         else:
